@@ -3,6 +3,9 @@ package scen
 import (
 	"fmt"
 	"strings"
+
+	"simh/codec"
+	"simh/sim"
 )
 
 func init() {
@@ -25,8 +28,19 @@ func runC09(c *Ctx) {
 	var ds []string
 	for _, p := range tw.Plans {
 		buildStreamPlan(c, tw, p, 1+c.T.Choose(4), 2+c.T.Choose(8), 2000, 9000, false)
-		end := c.T.Choose(6)
+		end := c.T.Choose(7)
 		switch end {
+		case 6:
+			// a websocket TEXT message while the host is still sending: the packet stream ends
+			// there (legacy: an out-of-phase packet instead)
+			if p.Transport == "ws" {
+				k := 4 + c.T.Choose(len(p.Pkts)-3)
+				txt := CPkt{Kind: KUnframeable, Wire: codec.WSFrame(true, 1, []byte("this is text, not a packet"), [4]byte{1, 2, 3, 4})}
+				p.Pkts = append(append(append([]CPkt{}, p.Pkts[:k]...), txt), p.Pkts[k:]...)
+				c.S.Count("fault.client.ws_text_frame")
+			} else {
+				p.Pkts = append(p.Pkts, PTunnelAuth("again"))
+			}
 		case 1:
 			p.Pkts = append(p.Pkts, PClose())
 		case 2:
@@ -46,7 +60,21 @@ func runC09(c *Ctx) {
 		case 5:
 			p.Pkts = append(p.Pkts, PTunnelAuth("again"))
 		}
-		ds = append(ds, fmt.Sprintf("%s/%s end=%s", p.Name, p.Transport, []string{"none", "close-while-streaming", "error-while-streaming", "drop", "keepalives", "error-while-streaming"}[end]))
+		ds = append(ds, fmt.Sprintf("%s/%s end=%s", p.Name, p.Transport, []string{"none", "close-while-streaming", "error-while-streaming", "drop", "keepalives", "error-while-streaming", "text-frame-while-streaming"}[end]))
+	}
+	longOdds := 40
+	if sim.RaceEnabled {
+		longOdds = 12 // what a long session can reveal is a race on the statistics fields
+	}
+	if c.T.Bool(1, longOdds) {
+		// a long session: the host sends more than a thousand small writes on one tunnel
+		p := tw.Plans[c.T.Choose(len(tw.Plans))]
+		p.HostScript = nil
+		for i, k := 0, 1050+c.T.Choose(200); i < k; i++ {
+			p.HostScript = append(p.HostScript, []byte{byte(i), byte(i >> 8)}[:1+i%2])
+		}
+		ds = append(ds, fmt.Sprintf("%s: long session, %d host writes", p.Name, len(p.HostScript)))
+		c.S.Count("probe.long_session")
 	}
 	installStalls(c, 2+c.T.Choose(4))
 	tw.Tuns = StartTunnels(c, tw.Plans)
